@@ -53,4 +53,5 @@ def pick_text_fault(rng: random.Random) -> tuple[str, str]:
 MALFORMED_FILE_NAMES = [
     "Foo.dsdl", "Foo.1.dsdl", "Foo.1.0.0.0.dsdl", "1.2.Foo.1.0.dsdl", "Foo.x.0.dsdl", "Foo.1.y.dsdl", "abc.Foo.1.0.dsdl",
     ".1.0.dsdl", "Foo..0.dsdl", "Foo.1.0.uavcan.dsdl", "Foo.1.0.x.uavcan", ".dsdl", "nodots.uavcan",
+    "Foo.1.0rc1.dsdl", "Foo.1x.0.dsdl", "7509abc.Foo.1.0.dsdl",
 ]
